@@ -661,9 +661,33 @@ func xRecovery(x *X) {
 	if fd := x.Func(rec, "calculateDelay"); need("calculateDelay:func", fd != nil, "calculateDelay not found") {
 		body := stripComments(x, fd.Body)
 		want := "{ delay := float64(dr.retryConfig.BaseDelay) * math.Pow(dr.retryConfig.BackoffFactor, float64(attempt-1)) " +
-			"if delay > float64(dr.retryConfig.MaxDelay) { delay = float64(dr.retryConfig.MaxDelay) } " +
+			"if delay > float64(dr.retryConfig.MaxDelay) || math.IsNaN(delay) { delay = float64(dr.retryConfig.MaxDelay) } " +
 			"return time.Duration(delay) }"
-		need("calculateDelay:shape", body == want, "delay computation differs from the modelled one.\n have: %s\n want: %s", body, want)
+		need("calculateDelay:shape", body == want, "delay computation (cap incl. NaN guard) differs from the modelled one.\n have: %s\n want: %s", body, want)
+	}
+
+	// ---- recovery.go: NewDatabaseRecovery sanitises the configuration ---------------------------------
+	if fd := x.Func(rec, "NewDatabaseRecovery"); need("NewDatabaseRecovery:func", fd != nil, "NewDatabaseRecovery not found") {
+		body := stripComments(x, fd.Body)
+		want := "{ if config.MaxAttempts < 1 { config.MaxAttempts = 1 } " +
+			"if config.BaseDelay < 0 { config.BaseDelay = 0 } " +
+			"if config.MaxDelay < 0 { config.MaxDelay = 0 } " +
+			"if !(config.BackoffFactor >= 1) { config.BackoffFactor = 1 } " +
+			"return &DatabaseRecovery{ retryConfig: config, } }"
+		need("NewDatabaseRecovery:shape", body == want, "configuration sanitisation differs from the modelled one (Retry.sanitize).\n have: %s\n want: %s", body, want)
+		// the only place a DatabaseRecovery is built outside tests
+		lits := 0
+		for _, f := range x.Pkg(rec) {
+			ast.Inspect(f, func(n ast.Node) bool {
+				if cl, ok := n.(*ast.CompositeLit); ok {
+					if id, ok := cl.Type.(*ast.Ident); ok && id.Name == "DatabaseRecovery" {
+						lits++
+					}
+				}
+				return true
+			})
+		}
+		need("NewDatabaseRecovery:only-constructor", lits == 1, "expected exactly one DatabaseRecovery{..} literal in package recovery (inside NewDatabaseRecovery), found %d", lits)
 	}
 
 	// ---- recovery.go: LoadDatabaseWithFallback ladder ---------------------------------------------------
